@@ -852,6 +852,12 @@ class Partial:
         loops = sp.loop_events(self.doc, selected)
         id_of = {pth(i): i for i, _, _, _ in eg.flat}
         as_written = [(q, t) for q, t in want]
+        ties: list = []       # model tie of the loop: made only where the elements are processed with their own declarations
+
+        def tie() -> None:
+            for rq, pd in ties:
+                self.reqs.append(rq)
+                self.pend.append(pd)
         for ident, is_key, attr, j, events, inside_too in loops:
             name = ident_text('duplicated value (0,) for %r' % ident).split(' for ')[1]
             mine = lambda t: t.endswith(' for ' + name) or (is_key and t == "missing key field '@%s'" % attr)  # noqa
@@ -865,14 +871,15 @@ class Partial:
                     # ("missing key field" texts do not name their constraint: only the duplicates are attributed to it;
                     #  the missing-field errors are compared in the aggregate below and, model side, with the python reading)
                     real = sorted(['dup', id_of.get(q, -1)] for q, t in have if t.startswith('dup') and mine(t))
-                    self.reqs.append({'op': 'identloop', 'key': is_key, 'j': j,
-                                      'events': [{'chain': c, 'node': n, 'val': v} for c, n, v in events]})
-                    self.pend.append(('identloop', dict(case, api='iter_errors(path): identity loop', identity=name), real,
-                                      sorted([k_, n_] for k_, n_ in port)))
+                    ties.append(({'op': 'identloop', 'key': is_key, 'j': j,
+                                  'events': [{'chain': c, 'node': n, 'val': v} for c, n, v in events]},
+                                 ('identloop', dict(case, api='iter_errors(path): identity loop', identity=name), real,
+                                  sorted([k_, n_] for k_, n_ in port))))
         if sorted(want) == sorted(have):
             ctx.count('identity:' + ('same' if want else 'none'))
             if want:
                 ctx.case(dict(case, api='iter_errors(path): identity errors'), True, 'api:partial-identity')
+            tie()
             return
         mixed = len({len(self.doc.chain(s_)) for s_ in selected}) > 1
         if mixed and sorted(as_written) == sorted(have):
@@ -881,6 +888,7 @@ class Partial:
             ctx.known_hit('C20-F7', dict(case, api='iter_errors(path): identity errors'),
                           {'kind': 'partial-identity', 'got': sorted(have), 'want': sorted(want)})
             ctx.count('identity:C20-F7')
+            tie()
             return
         # not claimed where the elements are known to be processed with another declaration / scope (F1, F3, F4, F6)
         lk = self.lookups(path, nsx, selected)
